@@ -128,6 +128,10 @@ func (x *Exec) instrMods(ins ssa.Instruction, out map[string]bool, depth int) {
 		if p, ok := addrPrefixOf(v.Addr); ok {
 			out[p] = true
 		}
+	case *ssa.Next:
+		if !v.IsString {
+			out["IT"] = true
+		}
 	case *ssa.MapUpdate:
 		out["M!"] = true
 	case ssa.CallInstruction:
